@@ -585,6 +585,9 @@ func allocRoots(v ssa.Value, seen map[ssa.Value]bool, out map[ssa.Value]bool) {
 						allocRoots(st.Val, seen, out)
 					}
 				}
+			} else {
+				// what a pointer points to belongs to the pointer's allocation (*scratch)
+				allocRoots(x.X, seen, out)
 			}
 		}
 	case *ssa.MakeSlice, *ssa.MakeMap, *ssa.Alloc:
